@@ -3,6 +3,7 @@ import io
 import itertools
 
 import numpy as np
+import common
 
 LEVEL = "proof"
 N_CASES = {"quick": 4000, "thorough": 150000}
@@ -651,3 +652,49 @@ def nontrivial(c, o):
     if k == "brle_ops":
         return len([1 for n in c["brle"] if n]) >= 2
     return True
+
+
+def translate(ctx):
+    """by ast from voxel/ops.py: the in-place arithmetic `points_to_indices` / `indices_to_points` apply to the
+    points, in order, and the rounding expression of `points_to_indices`"""
+    import ast
+    import os
+    tree = ast.parse(open(os.path.join(common.REPO, "trimesh/voxel/ops.py")).read())
+    out = {}
+    for name in ("points_to_indices", "indices_to_points"):
+        fn = next((f for f in tree.body if isinstance(f, ast.FunctionDef) and f.name == name), None)
+        if fn is None:
+            raise common.Broken("translate", f"voxel/ops.py: {name} not found")
+        ops, final = [], None
+
+        def visit(stmts, guard):
+            nonlocal final
+            for st in stmts:
+                if isinstance(st, ast.If):
+                    visit(st.body, ast.unparse(st.test))
+                    visit(st.orelse, "not " + ast.unparse(st.test))
+                elif isinstance(st, ast.AugAssign) and ast.unparse(st.target) == "points":
+                    op = {ast.Sub: "-=", ast.Add: "+=", ast.Mult: "*=", ast.Div: "/="}.get(type(st.op))
+                    val = ast.unparse(st.value).replace("float(pitch)", "pitch")
+                    ops.append(f"{op} {val} | {guard}")
+                elif isinstance(st, ast.Assign) and ast.unparse(st.targets[0]) == "points" and ops:
+                    ops.append("reassigned: " + ast.unparse(st.value))
+                elif isinstance(st, ast.Assign) and ast.unparse(st.targets[0]) == "indices" and "points" in ast.unparse(st.value):
+                    final = ast.unparse(st.value)
+        visit(fn.body, "always")
+        out[name] = (ops, final)
+    q = lambda s_: '"' + s_.replace('"', "'") + '"'
+    L = ["-- GENERATED by harness/props/C13.py from /repo/trimesh/voxel/ops.py (ast) -- do not edit",
+         "namespace TV.Generated.C13",
+         "/-- in-place arithmetic on the points in `points_to_indices`, in order (operation | guard) -/",
+         "def pointsToIndicesOps : List String := [" + ", ".join(q(o) for o in out["points_to_indices"][0]) + "]",
+         "/-- the expression that turns the scaled points into indices -/",
+         "def pointsToIndicesFinal : String := " + q(out["points_to_indices"][1] or "missing"),
+         "/-- in-place arithmetic on the points in `indices_to_points`, in order -/",
+         "def indicesToPointsOps : List String := [" + ", ".join(q(o) for o in out["indices_to_points"][0]) + "]",
+         "end TV.Generated.C13"]
+    return {"C13Table.lean": "\n".join(L) + "\n"}
+
+
+def generated_obligations():
+    return 1
